@@ -588,11 +588,12 @@ def _recording(ctx: Ctx) -> None:
         site.effect(ctx, 'R2', f'self._add_inputs({R})', call_pred(lambda e: isinstance(e, ast.Name) and e.id == 'self', '_add_inputs', R),
                     {'foreign': True}, [({'foreign': False}, 'the resource is produced by the job itself (it would be downloaded before it exists)')],
                     f'a resource of another job or an input file is never recorded in `self._inputs`: it is not downloaded into the consuming job',
-                    'a foreign resource is not always recorded as an input of the consuming job')
+                    'a foreign resource is not always recorded as an input of the consuming job', role='self._add_inputs(<resource>)', carriers=(R,))
         site.effect(ctx, 'R2', f'{S}._add_internal_outputs({R})', call_pred(lambda e, S=S: isinstance(e, ast.Name) and e.id == S, '_add_internal_outputs', R),
                     {'foreign': True, 'notnone': True}, [({'foreign': False}, 'the resource is produced by the job itself'), ({'notnone': False}, f'`{S}` is None')],
                     f'the producer is never told to upload the resource (`{S}._add_internal_outputs({R})` missing): the consumer downloads a file nobody wrote',
-                    'a foreign job resource is not always recorded as an internal output of its producer')
+                    'a foreign job resource is not always recorded as an internal output of its producer', role='<producing job>._add_internal_outputs(<resource>)',
+                    carriers=(S, R))
     # the two helpers write the sets the back end reads
     for meth, attr in (('_add_inputs', '_inputs'), ('_add_internal_outputs', '_internal_outputs')):
         f = m.func(f'Job.{meth}')
